@@ -103,26 +103,12 @@ def norm_cont_rule(repo, R):
     f = repo.func("gbasis.contractions.GeneralizedContractionShell.assign_norm_cont")
     R.note_function(f.qualname)
     fn = f.node
-    einsums = [n for n in ast.walk(fn) if isinstance(n, ast.Call) and ast.unparse(n.func) in ("np.einsum", "numpy.einsum")]
-    ok = False
-    msg = "contraction norms are not computed from the diagonal of the shell's own overlap block"
-    if len(einsums) == 1 and len(einsums[0].args) == 2 and isinstance(einsums[0].args[0], ast.Constant):
-        spec = einsums[0].args[0].value.replace(" ", "")
-        inner = einsums[0].args[1]
-        okcall = isinstance(inner, ast.Call) and ast.unparse(inner.func).endswith("Overlap.construct_array_contraction") and \
-            [ast.unparse(a) for a in inner.args] == ["self", "self"] and not inner.keywords
-        ins, _, out = spec.partition("->")
-        # block axes are (M, L, M, L): the diagonal pairs axis 0 with 2 and axis 1 with 3, output (M, L)
-        okspec = len(ins) == 4 and ins[0] == ins[2] and ins[1] == ins[3] and ins[0] != ins[1] and out == ins[0] + ins[1]
-        ok = okcall and okspec
-        if not okspec:
-            msg = f"einsum '{spec}' does not take the (segment, component) diagonal of the (M, L, M, L) self-overlap block"
-        elif not okcall:
-            msg = f"the self-overlap is not Overlap.construct_array_contraction(self, self): {ast.unparse(inner)[:70]}"
-    R.check(ok, "NORMCONT", f.site, "np.einsum('ijij->ij', Overlap(self, self))", msg, where=f.where(), expected="'ijij->ij' of Overlap.construct_array_contraction(self, self)")
-    # value flow: what is finally stored in self.norm_cont, as a function of the diagonal S of the self-overlap
+    # value flow: what is finally stored in self.norm_cont, as a function of S = the (segment, component) diagonal of the shell's own
+    # (M, L, M, L) overlap block
     from ..formula import Elem
     S = sp.Symbol("S", positive=True)
+    SELF_OV = sp.Symbol("SELF_OVERLAP", positive=True)
+    notes = []
 
     class NC(Elem):
         def assign(self, t, v, st):
@@ -134,8 +120,24 @@ def norm_cont_rule(repo, R):
         def expr(self, e):
             if isinstance(e, ast.Attribute) and ast.unparse(e) in self.env:
                 return self.env[ast.unparse(e)]
+            if isinstance(e, ast.Call) and ast.unparse(e.func).endswith("Overlap.construct_array_contraction"):
+                if [ast.unparse(a) for a in e.args] == ["self", "self"] and not e.keywords:
+                    return SELF_OV
+                notes.append(f"the overlap block is computed for ({', '.join(ast.unparse(a) for a in e.args)}), not for (self, self)")
+                return sp.Symbol("OTHER_OVERLAP", positive=True)
             if isinstance(e, ast.Call) and ast.unparse(e.func) in ("np.einsum", "numpy.einsum"):
-                return S
+                if len(e.args) == 2 and isinstance(e.args[0], ast.Constant) and isinstance(e.args[0].value, str) and "->" in e.args[0].value:
+                    spec = e.args[0].value.replace(" ", "")
+                    ins, _, out = spec.partition("->")
+                    # block axes are (M, L, M, L): the diagonal pairs axis 0 with 2 and axis 1 with 3, output (M, L)
+                    okspec = len(ins) == 4 and ins[0] == ins[2] and ins[1] == ins[3] and ins[0] != ins[1] and out == ins[0] + ins[1]
+                    arg = self.expr(e.args[1])
+                    if okspec and arg == SELF_OV:
+                        return S
+                    if not okspec:
+                        notes.append(f"einsum '{spec}' does not take the (segment, component) diagonal of the (M, L, M, L) self-overlap block")
+                    return sp.Symbol("NOT_THE_DIAGONAL", positive=True)
+                self.err("einsum form not recognised", e)
             if isinstance(e, ast.Call) and ast.unparse(e.func) in ("np.finfo", "numpy.finfo"):
                 return sp.Symbol("FINFO")
             if isinstance(e, ast.Attribute) and isinstance(e.value, ast.Call) and ast.unparse(e.value.func) in ("np.finfo", "numpy.finfo"):
@@ -152,8 +154,8 @@ def norm_cont_rule(repo, R):
         raise AnalysisError("NORMCONT", "assign_norm_cont does not store self.norm_cont", f.where())
     R.check(sp.simplify(val - S ** sp.Rational(-1, 2)) == 0, "NORMCONT", f.site, "self.norm_cont == S ** -0.5",
             "the contraction norm must be exactly the self-overlap to the power -1/2 (otherwise a contraction is no longer "
-            "normalised, and rescaling a coefficient column changes the function)",
-            where=f.where(), expected="S**(-1/2)", found=str(val))
+            "normalised, and rescaling a coefficient column changes the function)" + ("; " + "; ".join(notes) if notes else ""),
+            where=f.where(), expected="S**(-1/2) with S = einsum('ijij->ij', Overlap.construct_array_contraction(self, self))", found=str(val))
 
 
 def run(repo, R):
